@@ -71,6 +71,10 @@ func genStep(t *rapid.T) Step {
 		for i := 0; i < n; i++ {
 			s.Seq.Txs = append(s.Seq.Txs, genTx(t))
 		}
+		if rapid.IntRange(0, 19).Draw(t, "huge") == 0 {
+			// a batch of several megabytes (the single sequencer puts no bound on a batch)
+			s.Seq.Blowup = rapid.SampledFrom([]int{300_000, 700_000, 1_600_000}).Draw(t, "blowup")
+		}
 	}
 	s.Seq.DeltaNs = genDelta(t)
 	if rapid.IntRange(0, 3).Draw(t, "bd") == 0 {
